@@ -41,7 +41,7 @@ def check_pair_matrix(run, pkg, attrs, ndim):
         if c2[0] == "cmp" and c2[1] == "==" and c2[2] == nd and is_const(c2[3]):
             return c2[3][1] == ndim
         return None
-    it = interp(pkg, f"{CLS}.pair_matrix", assume=assume)
+    it = interp(pkg, f"{CLS}.pair_matrix", assume=assume, self_attrs=dict(attrs, ndim=C(ndim)))
     fi = it.fi
     fq = short(fi.qual)
     p = fi.params
@@ -111,6 +111,10 @@ def check_pair_matrix(run, pkg, attrs, ndim):
                 M = sp.zeros(ndim, ndim)
                 for ev_ in stores(it):
                     tg = ev_.data["target"]
+                    if tg[1] == t and not (tg[2][0] == "tuple" and len(tg[2][1]) == 2 and all(is_const(x) for x in tg[2][1]) and ev_.data["op"] is None):
+                        # a store whose position is not a pair of literals (loop counters, slices, in-place operators): the
+                        # entries it fills are unknown to this evaluator - undecided, never read as "stays zero"
+                        raise NoMat("element stores at non-literal positions")
                     if tg[1] == t and tg[2][0] == "tuple" and len(tg[2][1]) == 2 and all(is_const(x) for x in tg[2][1]) and ev_.data["op"] is None:
                         i_, j_ = tg[2][1][0][1], tg[2][1][1][1]
                         if i_ < ndim and j_ < ndim:
